@@ -1253,6 +1253,9 @@ sexp sexp_string_utf8_ref (sexp ctx, sexp str, sexp i) {
     return sexp_make_character(*p);
   else if ((*p < 0xC0) || (*p > 0xF7))
     return sexp_user_exception(ctx, NULL, "string-ref: invalid utf8 byte", i);
+  else if (sexp_unbox_string_cursor(i) + sexp_utf8_initial_byte_count(*p)
+           > (sexp_sint_t)sexp_string_size(str))
+    return sexp_user_exception(ctx, NULL, "string-ref: truncated utf8 sequence", i);
   else if (*p < 0xE0)
     return sexp_make_character(((p[0]&0x3F)<<6) + (p[1]&0x3F));
   else if (*p < 0xF0)
